@@ -25,5 +25,6 @@ RULES = [
     ("C05.chain", lambda c, r: lfht.rule_chain(c, r, "C05.chain")),
     ("C05.partition", lambda c, r: c09.rule_partition(c, r, "C05.partition")),
     ("C05.unique", lambda c, r: lfht.rule_unique(c, r, "C05.unique")),
+    ("C05.bucketat", lambda c, r: lfht.rule_bucketat(c, r, "C05.bucketat")),
 ]
 FLOORS = {}
